@@ -20,7 +20,7 @@ func init() {
 
 func c17() []*Ob {
 	return []*Ob{
-		{Prop: "C17", ID: "C17.1", Engine: "ORDER+DOM+PROV", Floor: 4,
+		{Prop: "C17", ID: "C17.1", Engine: "ORDER+DOM+PROV", Floor: 3,
 			Desc: "filter before anything is indexed: in appendWorker, collector.Filter(appended) takes SetMultiple's result, is guarded by len(appended) != len(collector.IDs), follows SetMultiple and precedes AppendIDs / TokenList.Append / GroupLIDsByToken / UpdateStats; those take their arguments from the collector after the filter",
 			Check: func(c *Ctx) {
 				fn := c.Fn("(*frac.ActiveIndexer).appendWorker")
@@ -95,7 +95,7 @@ func c17() []*Ob {
 				MustPrecede(c, fn, setM, "SetMultiple", Callee("(*frac.Active).AppendIDs"), "AppendIDs")
 				MustPrecede(c, fn, Callee("(*frac.Active).AppendIDs"), "AppendIDs", Callee("(*frac.metaDataCollector).GroupLIDsByToken"), "GroupLIDsByToken")
 			}},
-		{Prop: "C17", ID: "C17.2", Engine: "FIELDS+PROV", Floor: 8,
+		{Prop: "C17", ID: "C17.2", Engine: "FIELDS+PROV", Floor: 4,
 			Desc: "the filter rebuilds every per-document column and the stats: Filter assigns IDs, Positions, tokensInDocs, tokensIndex, MinMID, MaxMID, DocsCounter; the per-document token offset table is an exclusive running sum of tokensInDocs",
 			Check: func(c *Ctx) {
 				fn := c.Fn("(*frac.metaDataCollector).Filter")
@@ -171,7 +171,7 @@ func c17() []*Ob {
 					c.Undecided("prov:Filter:offsets", fn.Pos(), "cannot find the per-document token offset table in Filter")
 				}
 			}},
-		{Prop: "C17", ID: "C17.3", Engine: "LOCK+DOM", Floor: 2,
+		{Prop: "C17", ID: "C17.3", Engine: "LOCK+DOM", Floor: 1,
 			Desc: "first writer wins, atomically: DocsPositions.SetMultiple looks an id up and stores it under one write-lock hold, stores only when the id is new or has the same position, and appends to the result exactly the ids it stored",
 			Check: func(c *Ctx) {
 				fn := c.Fn("(*frac.DocsPositions).SetMultiple")
@@ -261,7 +261,7 @@ func c17() []*Ob {
 					}
 				}
 			}},
-		{Prop: "C17", ID: "C17.4", Engine: "ORDER+DOM", Floor: 3,
+		{Prop: "C17", ID: "C17.4", Engine: "ORDER+DOM", Floor: 2,
 			Desc: "dedup before cut: seq.MergeQPRs removes repeated ids before applying the limit and subtracts the number of repeats from the total; sealing writes the document of a repeated id once",
 			Check: func(c *Ctx) {
 				if fn := c.Fn("seq.MergeQPRs"); fn != nil {
